@@ -31,10 +31,16 @@ Definition SQ : N := 39%N.
 Definition DQ : N := 34%N.
 Definition flipq (q : N) : N := if N.eqb q SQ then DQ else SQ.
 
+Definition hexdigit (n : N) : N := if (n <? 10)%N then (48 + n)%N else (87 + n)%N.   (* lower case *)
+Definition hex4 (c : N) : text :=
+  [hexdigit (c / 4096 mod 16); hexdigit (c / 256 mod 16); hexdigit (c / 16 mod 16); hexdigit (c mod 16)]%N.
+Definition is_surrogate (c : N) : bool := (55296 <=? c)%N && (c <=? 57343)%N.
+
 Definition escape_cp (q : N) (c : N) : text :=
   match nth_error (if N.eqb q SQ then escape_table_sq else escape_table_dq) (N.to_nat c) with
   | Some t => t
-  | None => [c]        (* code points above the table are emitted unchanged *)
+  | None => if is_surrogate c then 92%N :: 117%N :: hex4 c   (* \udXXX *)
+            else [c]      (* other code points above the table are emitted unchanged *)
   end.
 Definition escape (q : N) (s : text) : text := flat_map (escape_cp q) s.
 
@@ -43,11 +49,31 @@ Definition RBRACE : N := 125%N.
 Definition double_braces (t : text) : text :=
   flat_map (fun c => if N.eqb c LBRACE then [LBRACE; LBRACE] else if N.eqb c RBRACE then [RBRACE; RBRACE] else [c]) t.
 
+(* str.replace on code point lists (non-overlapping, left to right) *)
+Fixpoint is_prefix (p t : text) : bool :=
+  match p, t with
+  | [], _ => true
+  | a :: p', b :: t' => N.eqb a b && is_prefix p' t'
+  | _ :: _, [] => false
+  end.
+Fixpoint replace_go (pat rep : text) (skip : nat) (t : text) : text :=
+  match t with
+  | [] => []
+  | c :: r =>
+      match skip with
+      | S k => replace_go pat rep k r
+      | O => if is_prefix pat t then rep ++ replace_go pat rep (length pat - 1) r else c :: replace_go pat rep 0 r
+      end
+  end.
+Definition replace_text (pat rep t : text) : text := replace_go pat rep 0 t.
+Definition nonfinite_text (r : text) : text :=
+  replace_text (s2t "nan") (s2t "(1e309-1e309)") (replace_text (s2t "inf") (s2t "1e309") r).
+
 Definition const_text (q : N) (c : const) : text :=
   match c with
   | CNone => s2t "None" | CTrue => s2t "True" | CFalse => s2t "False" | CEllipsis => s2t "..."
   | CInt z => s2t (z2s z)
-  | CFloat r => r | CComplex r => r | CBytes r => r
+  | CFloat r => nonfinite_text r | CComplex r => nonfinite_text r | CBytes r => r
   | CStr s => q :: escape q s ++ [q]
   end.
 
@@ -100,35 +126,81 @@ Fixpoint attach_kwdefaults (names : list (list tok)) (ds : list (option (list to
 
 Definition starts_with (c : N) (t : text) : bool := match t with x :: _ => N.eqb x c | [] => false end.
 Definition ends_with (c : N) (t : text) : bool := starts_with c (rev t).
+Definition ends_with2 (c : N) (t : text) : bool :=
+  match rev t with a :: b :: _ => N.eqb a c && N.eqb b c | _ => false end.
+
+(* helpers of [utoks], parameterised by the recursive function itself *)
+Section Helpers.
+  Variable U : nat -> N -> expr -> list tok.
+
+  Definition comp_toks (q : N) (g : comprehension) : list tok :=
+    match g with (t, i, ifs, a) =>
+      (if a : bool then [TP "async "] else []) ++ TP "for " :: U slot_comp_target q t ++ TP " in " :: U slot_comp_iter q i
+      ++ flat_map (fun f => TP " if " :: U slot_comp_if q f) ifs end.
+  Definition comps_toks (q : N) (gs : list comprehension) : list tok :=
+    join [TP " "] (map (comp_toks q) gs).
+
+  (* _unparse_JoinedStr with quote [qq]; [split] = text inserted before a literal part that starts with "}"
+     when the part before it ends in "}}" (empty list: never) *)
+  Fixpoint fbody (split : list tok) (sl : nat) (qq : N) (vs : list expr) (prev : list tok) : list tok :=
+    match vs with
+    | [] => []
+    | v :: r =>
+        let part :=
+          match v with
+          | Constant (CStr s) =>
+              let t := double_braces (escape qq s) in
+              (match split with
+               | [] => []
+               | _ => if starts_with RBRACE t && ends_with2 RBRACE (render prev) then split else []
+               end) ++ [TFText t]
+          | FormattedValue _ _ _ => U sl qq v
+          | _ => []
+          end in
+        part ++ fbody split sl qq r (match v with Constant (CStr _) | FormattedValue _ _ _ => part | _ => prev end)
+    end.
+
+  Fixpoint dict_toks (q : N) (ks : list (option expr)) (vs ws : list (list tok)) : list (list tok) :=
+    match ks, vs, ws with
+    | Some k :: ks', v :: vs', _ :: ws' => (U slot_Dict_key q k ++ TP ":" :: v) :: dict_toks q ks' vs' ws'
+    | None :: ks', _ :: vs', w :: ws' => (TP "**" :: w) :: dict_toks q ks' vs' ws'
+    | _, _, _ => []
+    end.
+
+  Fixpoint compare_toks (q : N) (cs : list expr) (ops : list cmpop) : list tok :=
+    match cs, ops with
+    | c :: cs', o :: ops' => TP (cmpop_text o) :: U slot_Compare_comparator q c ++ compare_toks q cs' ops'
+    | _, _ => []
+    end.
+
+  Definition kw_toks (q : N) (kw : option ident * expr) : list tok :=
+    match fst kw with
+    | None => TP "**" :: U slot_Call_kwarg q (snd kw)
+    | Some k => TName k :: TP "=" :: U slot_Call_kwarg q (snd kw)
+    end.
+End Helpers.
 
 (* [q] is the quote of the enclosing string context ("outer_str_qm") *)
 Fixpoint utoks (slot : nat) (q : N) (e : expr) {struct e} : list tok :=
+  let U := fun s q0 x => utoks s q0 x in
   let sub := fun s x => utoks s q x in
-  let comps := fun (gs : list comprehension) =>
-    join [TP " "] (map (fun g => match g with (t, i, ifs, a) =>
-        (if a : bool then [TP "async "] else []) ++ TP "for " :: sub slot_comp_target t ++ TP " in " :: sub slot_comp_iter i
-        ++ flat_map (fun f => TP " if " :: sub slot_comp_if f) ifs end) gs) in
-  (* _unparse_JoinedStr with quote [qq] *)
-  let fbody := fun (sl : nat) (qq : N) (vs : list expr) =>
-    flat_map (fun v => match v with
-                       | Constant (CStr s) => [TFText (double_braces (escape qq s))]
-                       | FormattedValue _ _ _ => utoks sl qq v
-                       | _ => []
-                       end) vs in
   let body :=
     match e with
     | Name i => [TName i]
     | Constant c => [TLit c (const_text (flipq q) c)]
-    | JoinedStr vs => let qq := flipq q in TP "f" :: TFText [qq] :: fbody slot_JoinedStr_field qq vs ++ [TFText [qq]]
-    | FormattedValue v _ spec =>
+    | JoinedStr vs =>
+        let qq := flipq q in
+        TP "f" :: TFText [qq] :: fbody U [TFText [qq]; TP " f"; TFText [qq]] slot_JoinedStr_field qq vs [] ++ [TFText [qq]]
+    | FormattedValue v conv spec =>
         let vt := sub slot_FormattedValue_value v in
         let st := match spec with
-                  | Some (JoinedStr svs) => TP ":" :: fbody slot_FormattedValue_spec_field q svs
+                  | Some (JoinedStr svs) => TP ":" :: fbody U [] slot_FormattedValue_spec_field q svs []
                   | Some _ => [TP ":"]
                   | None => []
                   end in
-        TP "{" :: (if starts_with LBRACE (render vt) then [TP " "] else []) ++ vt ++ st
-        ++ (if ends_with RBRACE (render st) then [TP " "] else []) ++ [TP "}"]
+        TP "{" :: (if starts_with LBRACE (render vt) then [TP " "] else []) ++ vt
+        ++ (if Z.eqb conv (-1) then [] else [TFText [33%N; Z.to_N conv]])       (* !r / !s / !a *)
+        ++ st ++ [TP "}"]
     | Starred v => TP "*" :: sub slot_Starred_value v
     | BinOp l o r => sub (slot_BinOp_left o) l ++ TP (binop_text o) :: sub (slot_BinOp_right o) r
     | BoolOp o vs => join [TP (" " ++ boolop_text o ++ " ")%string] (map (sub (slot_BoolOp o)) vs)
@@ -141,24 +213,21 @@ Fixpoint utoks (slot : nat) (q : N) (e : expr) {struct e} : list tok :=
         | _ => TP "(" :: join [TP ","] (map (sub slot_Tuple_elt) l) ++ [TP ")"]
         end
     | EDict ks vs =>
-        TP "{" :: join [TP ","]
-          ((fix go (ks : list (option expr)) (vs : list (list tok) * list (list tok)) {struct ks} : list (list tok) :=
-              match ks, vs with
-              | Some k :: ks', (v :: vs', _ :: ws') => (sub slot_Dict_key k ++ TP ":" :: v) :: go ks' (vs', ws')
-              | None :: ks', (_ :: vs', w :: ws') => (TP "**" :: w) :: go ks' (vs', ws')
-              | _, _ => []
-              end) ks (map (sub slot_Dict_value) vs, map (sub slot_Dict_starvalue) vs)) ++ [TP "}"]
-    | Compare l ops cs =>
-        sub slot_Compare_left l ++
-          (fix go (cs : list expr) (ops : list cmpop) {struct cs} : list tok :=
-             match cs, ops with
-             | c :: cs', o :: ops' => TP (cmpop_text o) :: sub slot_Compare_comparator c ++ go cs' ops'
-             | _, _ => []
-             end) cs ops
+        TP "{" :: join [TP ","] (dict_toks U q ks (map (sub slot_Dict_value) vs) (map (sub slot_Dict_starvalue) vs)) ++ [TP "}"]
+    | Compare l ops cs => sub slot_Compare_left l ++ compare_toks U q cs ops
     | Attribute v a =>
         let vt := sub slot_Attribute_value v in
         paren (all_digits (render vt)) vt ++ [TP "."; TName a]
-    | Subscript v s => sub slot_Subscript_value v ++ TP "[" :: sub slot_Subscript_slice s ++ [TP "]"]
+    | Subscript v s =>
+        sub slot_Subscript_value v ++ TP "[" ::
+          (match s with
+           | ETuple items =>
+               if existsb (fun x => match x with Slice _ _ _ => true | _ => false end) items then
+                 (* an index tuple containing a slice is printed without parentheses *)
+                 join [TP ","] (map (sub slot_Subscript_tuple_item) items) ++ (match items with [_] => [TP ","] | _ => [] end)
+               else sub slot_Subscript_slice s
+           | _ => sub slot_Subscript_slice s
+           end) ++ [TP "]"]
     | Slice a b c =>
         (match a with Some x => sub slot_Slice_lower x | None => [] end) ++ TP ":" ::
         (match b with Some x => sub slot_Slice_upper x | None => [] end) ++ TP ":" ::
@@ -167,11 +236,7 @@ Fixpoint utoks (slot : nat) (q : N) (e : expr) {struct e} : list tok :=
         sub slot_Call_func f ++ TP "(" ::
           (match args, kws with
            | [x], [] => sub slot_Call_onlyarg x
-           | _, _ => join [TP ","] (map (sub slot_Call_arg) args ++
-                        map (fun kw => match fst kw with
-                                       | None => TP "**" :: sub slot_Call_kwarg (snd kw)
-                                       | Some k => TName k :: TP "=" :: sub slot_Call_kwarg (snd kw)
-                                       end) kws)
+           | _, _ => join [TP ","] (map (sub slot_Call_arg) args ++ map (kw_toks U q) kws)
            end) ++ [TP ")"]
     | NamedExpr t v => TName t :: TP ":=" :: sub slot_NamedExpr_value v
     | Lambda po ar va ko kd kw de body =>
@@ -183,10 +248,10 @@ Fixpoint utoks (slot : nat) (q : N) (e : expr) {struct e} : list tok :=
         let kwa := match kw with Some n => [[TP "**"; TName n]] | None => [] end in
         let all := pos ++ star ++ kws ++ kwa in
         TP "lambda" :: (match all with [] => [] | _ => TP " " :: join [TP ","] all end) ++ TP ":" :: sub slot_Lambda_body body
-    | ListComp x gs => TP "[" :: sub slot_ListComp_elt x ++ TP " " :: comps gs ++ [TP "]"]
-    | SetComp x gs => TP "{" :: sub slot_SetComp_elt x ++ TP " " :: comps gs ++ [TP "}"]
-    | GeneratorExp x gs => sub slot_GeneratorExp_elt x ++ TP " " :: comps gs
-    | DictComp k v gs => TP "{" :: sub slot_DictComp_key k ++ TP ":" :: sub slot_DictComp_value v ++ TP " " :: comps gs ++ [TP "}"]
+    | ListComp x gs => TP "[" :: sub slot_ListComp_elt x ++ TP " " :: comps_toks U q gs ++ [TP "]"]
+    | SetComp x gs => TP "{" :: sub slot_SetComp_elt x ++ TP " " :: comps_toks U q gs ++ [TP "}"]
+    | GeneratorExp x gs => sub slot_GeneratorExp_elt x ++ TP " " :: comps_toks U q gs
+    | DictComp k v gs => TP "{" :: sub slot_DictComp_key k ++ TP ":" :: sub slot_DictComp_value v ++ TP " " :: comps_toks U q gs ++ [TP "}"]
     | IfExp t b o => sub slot_IfExp_body b ++ TP " if " :: sub slot_IfExp_test t ++ TP " else " :: sub slot_IfExp_orelse o
     | Yield None => [TP "yield"]
     | Yield (Some v) => TP "yield " :: sub slot_Yield_value v
